@@ -70,6 +70,7 @@ def check(tier):
         cases.append((p, code, autos))
     bad, out = R.run_case_file("cases_C02", cases)
     rep.cov["evaluations"] = len(cases)
+    rep.cov["undecided_slow_patterns"] = [cases[i][0] for i in R.LAST.get("slow", [])][:10]
     rep.cov["programs"] = dist["stages"]
     rep.cov["distinct_nontrivial"] = sum(1 for p, code, a in cases if code == 0 and len(p) >= 3)
     rep.cov["rule"] = ("patterns = corpus + every documented construct once + every atom x every quantifier form + problem patterns + "
